@@ -31,6 +31,7 @@ stream is drained and must deliver everything that is still owed.
 import asyncio
 import io
 import threading
+import time
 
 RULE = ("random histories (<= 12 operations quick / <= 24 thorough, plus a drain) of add/get/seek/protect on the "
         "real SemiSeekableBuffer and of read/seek/protect(/feed) on the real wrappers, buffer/headroom from (4,1) "
@@ -45,9 +46,14 @@ ASSUMPTIONS = [
     "one thread at a time touches a buffer (the lock in PatchedIceCastClient is taken as given)",
 ]
 TRUSTED = [
+    "factory scenarios: fake get_metadata (scripted probe run in the executor), identity stand-in for miniaudio.stream_any / "
+    "WavFileReadStream, DEFAULT_TIMEOUT scaled to 0.06 s and polling sleeps shortened in the real-time runs",
     "fakes of harness/c17.py: scripted io.BufferedIOBase, scripted asyncio.StreamReader subclass, fake requests "
     "response, synchronous stand-in for asyncio.run_coroutine_threadsafe (cross-checked against a real loop thread)",
 ]
+
+STALL_TIMEOUT = 0.06      # what the library's DEFAULT_TIMEOUT (10 s) is scaled to in the thread-hop runs
+STALL = 0.25              # how long a stalled producer delivers nothing (> the scaled timeout)
 
 SIZES = [(4, 1), (4, 4), (5, 2), (8, 3), (10, 5), (16, 1), (16, 16), (32, 8), (64, 32), (100, 10)]
 BIG_SIZES = [(8192, 1024), (65536, 32768)]
@@ -90,6 +96,16 @@ WITNESSES = [
              ["addp", 0, 10, 4], ["get", 9]], "drain": 3},
 ]
 
+
+# the producer below an asyncio stream stalls for longer than the library's (scaled) timeout;
+# whatever the read does then (wait, or give up with an exception), the consumer carries on
+# and must still receive every byte in order.  Run through the real event-loop thread.
+STALL_WITNESSES = [
+    {"target": "srw", "size": 64, "headroom": 32, "prot": False, "seed": 11, "srclen": 60, "ks": [3] * 40,
+     "ops": [["read", 4], ["read", 4, "stall"], ["read", 4], ["read", 4]], "drain": 4},
+    {"target": "ssw", "size": 65536, "headroom": 32768, "prot": True, "seed": 12, "srclen": 50000, "ks": [8191] * 8,
+     "ops": [["read", 8192], ["read", 8192, "stall"], ["seek", 0], ["prot", 0], ["read", 8192]], "drain": 8192},
+]
 
 # ---------------------------------------------------------------------------------------
 # shared deterministic data / digests (mirrors PyatvModel.C17.pat / digest)
@@ -180,6 +196,7 @@ class ScriptedSource:
         self.off = 0
         self.ks = list(ks)
         self.calls = []
+        self.stall_next = 0.0
 
     def take(self, n):
         self.calls.append(n)
@@ -253,6 +270,10 @@ def make_stream_reader(src, loop):
             if n == 0:
                 src.take(0)
                 return b""
+            if src.stall_next:
+                # the producer stalls: nothing arrives for a while (only with a running loop)
+                delay, src.stall_next = src.stall_next, 0.0
+                await asyncio.sleep(delay)
             chunk = src.take(n)
             if chunk:
                 self.feed_data(chunk)
@@ -489,9 +510,13 @@ class Env:
     def __init__(self, thread_hop=False):
         from pyatv.protocols.raop import audio_source
         self.mod = audio_source
-        self.saved = {k: getattr(audio_source, k) for k in ("asyncio", "requests", "time")}
+        self.saved = {k: getattr(audio_source, k) for k in ("asyncio", "requests", "time", "DEFAULT_TIMEOUT")
+                      if hasattr(audio_source, k)}
         self.thread = None
         if thread_hop:
+            # stalls of the producer are played in real time: scale the library's timeout down
+            if "DEFAULT_TIMEOUT" in self.saved:
+                audio_source.DEFAULT_TIMEOUT = STALL_TIMEOUT
             self.loop = asyncio.new_event_loop()
             self.thread = threading.Thread(target=self.loop.run_forever, daemon=True)
             self.thread.start()
@@ -597,7 +622,15 @@ class Session:
                 return "f:" + bit(r) if isinstance(r, bool) else "err:type"
         else:
             if name == "read":
-                return self._data(self.w.read(op[1]))
+                stalled = len(op) > 2 and op[2] == "stall" and self.env.thread is not None
+                if stalled:
+                    self.src.stall_next = STALL
+                try:
+                    return self._data(self.w.read(op[1]))
+                except Exception:
+                    if stalled:
+                        time.sleep(STALL + 0.1)   # the consumer carries on once the producer has caught up
+                    raise
             if name == "seek":
                 r = self.w.seek(op[1])
                 if t == "srw":
@@ -635,6 +668,8 @@ def model_line(op):
         return "prot %s" % bit(op[1])
     if name == "add":
         return "add %s" % (op[1] or "-")
+    if name == "read":
+        return "read %d" % op[1]          # a stall is invisible to the model: the read just takes longer
     return " ".join([name] + [str(x) for x in op[1:]])
 
 
@@ -670,8 +705,9 @@ class Reference:
 
     def step(self, i, op, token, data):
         name = op[0]
-        if token == "err:WouldWait":
-            return      # the consumer would merely have to wait: not a verdict about the bytes
+        if token in ("err:WouldWait", "err:OperationTimeoutError"):
+            return      # the consumer merely has to wait / gave up waiting: no bytes were delivered,
+                        # the cursor stays where it is and later reads must continue from there
         if token.startswith("err:") and name != "prot":
             self.problem("exception", i, op, "operation raised/returned %s" % token)
             return
@@ -744,6 +780,8 @@ def _run_history(sess, h):
             flags.add("seek-ok" if (token == "f:1" or token == "p:%d" % op[1]) else "seek-fail")
         if op[0] in ("read", "get") and token.startswith("d:") and sess.last and seek_seen:
             flags.add("read-after-seek")
+        if op[0] == "read" and len(op) > 2:
+            flags.add("producer-stall")
         if ice and op[0] in ("fetch", "feed") and token == "f:1" and 0 < len(sess.src.calls) and \
                 sess.src.off < len(sess.S) and sess.src.last_len < op[1]:
             flags.add("short-read-mid-stream")
@@ -925,6 +963,8 @@ def gen_op(rng, sess, h, offered):
             return ["seek", pick_seek(rng, sess, h)]
         return ["prot", rng.choice([0, 1])]
     if r < 0.60:
+        if sess.env.thread is not None and t in ("srw", "ssw") and rng.chance(0.04):
+            return ["read", max(1, len(sess.buffer) + rng.randint(1, 3)), "stall"]
         return ["read", -1 if rng.chance(0.08) else pick_size(rng, sess, h)]
     if r < 0.86:
         return ["seek", pick_seek(rng, sess, h)]
@@ -1006,6 +1046,177 @@ def strip(h):
             if k in h}
 
 
+# ---------------------------------------------------------------------------------------
+# the wrappers as the library itself wires them: BufferedIOBaseSource.open
+
+class _MiniaudioShim:
+    """Stands in for `miniaudio` inside audio_source: an identity "decoder" whose output is
+    exactly what it pulls from the StreamableSource it is given."""
+
+    def __init__(self, real, capture, lock):
+        self._real, self._capture, self._lock = real, capture, lock
+        shim = self
+
+        class WavFileReadStream:
+            def __init__(self, source, *a, **k):
+                self.source = source
+
+            def read(self, n):
+                with shim._lock:
+                    data = bytes(self.source.read(n))
+                    shim._capture.extend(data)
+                    return data
+
+        self.WavFileReadStream = WavFileReadStream
+
+    def stream_any(self, source, **kwargs):
+        return source
+
+    def __getattr__(self, name):
+        return getattr(self._real, name)
+
+
+def run_factory(f):
+    """One scenario through the real BufferedIOBaseSource.open: the metadata probe performs
+    f["probe"] (reads / seeks on the file object the factory hands to get_metadata), the
+    factory rewinds and unprotects, the decoder then pulls the stream to its end.
+    Returns (probe tokens, bytes the decoder received, error or None)."""
+    from pyatv.protocols.raop import audio_source as A
+    S = pat(f["seed"], 0, f["srclen"])
+    src = ScriptedSource(S, f["ks"])
+    capture, lock, tokens = bytearray(), threading.Lock(), []
+    saved = {k: getattr(A, k) for k in ("miniaudio", "get_metadata")}
+
+    async def fake_get_metadata(file):
+        def probe():
+            for op in f["probe"]:
+                try:
+                    if op[0] == "read":
+                        tokens.append("d:" + digest(bytes(file.read(op[1]))))
+                    else:
+                        tokens.append("p:%d" % file.seek(op[1]))
+                except Exception as e:
+                    tokens.append("err:" + type(e).__name__)
+        await asyncio.get_event_loop().run_in_executor(None, probe)
+        return A.EMPTY_METADATA
+
+    async def scenario():
+        loop = asyncio.get_event_loop()
+        source = FakeRaw(src) if f["kind"] == "file" else make_stream_reader(src, loop)
+        inst = await A.BufferedIOBaseSource.open(source, 44100, 2, 2)
+        await inst.close()          # its own buffering task has not started yet: we are the consumer
+        for _ in range(2 * len(S) // max(1, f["chunk"]) + 64):
+            data = await loop.run_in_executor(None, inst.reader.read, f["chunk"])
+            if not data:
+                break
+
+    loop = asyncio.new_event_loop()
+    error = None
+    A.miniaudio = _MiniaudioShim(saved["miniaudio"], capture, lock)
+    A.get_metadata = fake_get_metadata
+    try:
+        loop.run_until_complete(asyncio.wait_for(scenario(), 60))
+    except Exception as e:
+        error = type(e).__name__ + ": " + str(e)[:120]
+    finally:
+        for k, v in saved.items():
+            setattr(A, k, v)
+        try:
+            loop.run_until_complete(loop.shutdown_default_executor())
+        except Exception:
+            pass
+        loop.close()
+    return tokens, bytes(capture), error
+
+
+def factory_model_lines(f, ndrain):
+    from pyatv.protocols.raop import audio_source as A
+    kind = "bio" if f["kind"] == "file" else "ssw"
+    lines = ["wreset %s %d %d 1 %d %d %s" % (kind, A.BUFFER_SIZE, A.HEADROOM_SIZE, f["seed"], f["srclen"],
+                                             ",".join(map(str, f["ks"])) or "-")]
+    lines.append("seek 0")                              # get_buffered_io_metadata: buffer.seek(0) != 0 ?
+    lines += [model_line(op) for op in f["probe"]]
+    lines += ["seek 0", "seek 0", "prot 0", "read 44"]  # finally: seek(0); seek(before); then open() goes on
+    lines += ["read %d" % f["chunk"]] * ndrain
+    return lines
+
+
+def gen_factory(rng):
+    from pyatv.protocols.raop import audio_source as A
+    B, H = A.BUFFER_SIZE, A.HEADROOM_SIZE
+    srclen = 44 + 4 * rng.choice([0, 10, 3000, H // 4, H // 4 + 500, B // 4 + 1000, B // 2 + 777])
+    probe, pos = [], 0
+    for _ in range(rng.randint(0, 7)):
+        if rng.chance(0.65):
+            n = rng.choice([1, 10, 100, 4096, 8192, H - 1, H, H + 1, 40000, B, B + 5, max(1, H - pos), max(1, H - pos + 1)])
+            probe.append(["read", n])
+            pos += n
+        else:
+            p = rng.choice([0, 0, 1, 100, 4096, H - 1, H, pos, max(0, pos - 1)])
+            probe.append(["seek", p])
+            pos = p
+    nks = rng.choice([0, 0, 8, 64])
+    ks = [rng.choice([10 ** 6, 10 ** 6, 8191, 4095, rng.randint(0, 20000)]) for _ in range(nks)]
+    return {"kind": rng.choice(["file", "stream"]), "seed": rng.randint(0, 255), "srclen": srclen, "ks": ks,
+            "probe": probe, "chunk": rng.choice([1056, 1056, 4096, 8192, H, 44])}
+
+
+FACTORY_WITNESSES = [
+    # the probe reads past the headroom (32 KiB) and the factory rewinds: nothing may be lost
+    {"kind": "file", "seed": 1, "srclen": 44 + 4 * 20000, "ks": [], "probe": [["read", 40000], ["seek", 100], ["read", 10]],
+     "chunk": 1056},
+    {"kind": "stream", "seed": 2, "srclen": 44 + 4 * 20000, "ks": [8191] * 8,
+     "probe": [["read", 32768], ["read", 1], ["seek", 0], ["read", 70000]], "chunk": 4096},
+]
+
+
+def check_factories(ctx, fs):
+    from pyatv.protocols.raop import audio_source as A
+    results, lines, starts = [], [], []
+    for f in fs:
+        tokens, got, error = run_factory(f)
+        ndrain = (len(got) - 44) // max(1, f["chunk"]) + 3 if len(got) >= 44 else 0
+        results.append((tokens, got, error, ndrain))
+        starts.append(len(lines))
+        lines += factory_model_lines(f, ndrain)
+    answers = ctx.lean(lines) if lines else []
+    for f, (tokens, got, error, ndrain), start in zip(fs, results, starts):
+        S = pat(f["seed"], 0, f["srclen"])
+        case = dict(f, target="factory")
+        past_headroom = sum(op[1] for op in f["probe"] if op[0] == "read") >= A.HEADROOM_SIZE
+        ctx.case(["factory", f], past_headroom, sample=case if len(f["probe"]) <= 4 else None)
+        ctx.note("target:factory-" + f["kind"])
+        if past_headroom:
+            ctx.note("event:probe-past-headroom")
+        # correspondence: the probe's answers and the decoder's stream against the model
+        model_probe = [a.split(" ")[0] for a in answers[start + 2:start + 2 + len(f["probe"])]]
+        ctx.validated(len(tokens) + 1)
+        if tokens != model_probe:
+            ctx.disagree(case, tokens, model_probe, where="factory probe")
+        first = start + 2 + len(f["probe"]) + 3
+        model_stream = [a.split(" ")[0] for a in answers[first:first + 1 + ndrain]]
+        if error is None and model_stream and not model_stream[0].startswith("d:"):
+            ctx.disagree(case, "stream", model_stream[:2], where="factory stream")
+        # direct oracle: the decoder must receive the whole source, from its first byte
+        if error is not None:
+            ctx.fail("factory:exception", case, error, "the factory opens the stream and the decoder can read it",
+                     "BufferedIOBaseSource.open / reading raised " + error)
+        elif got != S:
+            n = next((i for i, (a, b) in enumerate(zip(got, S)) if a != b), min(len(got), len(S)))
+            kind = "premature-eof" if n == len(got) else "read-mismatch"
+            ctx.fail("factory:" + kind, case, "decoder received %d bytes, first difference at offset %d (%s)"
+                     % (len(got), n, digest(got[n:n + 8])), "exactly the %d source bytes, in order" % len(S),
+                     "after the metadata probe %r the decoder did not receive the source from its first byte" % (f["probe"],))
+        # the probe itself also reads the stream: reference cursor over its reads / seeks
+        cur = 0
+        for op, tok in zip(f["probe"], tokens):
+            if op[0] == "seek":
+                if tok == "p:%d" % op[1]:
+                    cur = op[1]
+            elif tok.startswith("d:"):
+                pass    # digest only; the byte-level check of probe reads is done by the wrapper histories
+
+
 def run(ctx, only=None):
     rng = ctx.rng
     env = Env()
@@ -1030,11 +1241,17 @@ def run(ctx, only=None):
         check_histories(ctx, env, hs, "sync")
     finally:
         env.close()
+    # the wiring the library itself performs (real loop, real executor threads)
+    gf = rng.fork("factory")
+    check_factories(ctx, [dict(w) for w in FACTORY_WITNESSES] + [gen_factory(gf) for _ in range(ctx.scale(40, 300))])
+    gh = rng.fork("factory-http")
+    check_http_factories(ctx, [gen_http_factory(gh) for _ in range(ctx.scale(12, 60))])
     # a sample of stream-reader histories through a real event-loop thread
     env = Env(thread_hop=True)
     try:
         gt = rng.fork("thread-hop")
-        hs = [build_history(env, gt, ctx.thorough, targets=["srw", "ssw"]) for _ in range(ctx.scale(40, 200))]
+        hs = [dict(w) for w in STALL_WITNESSES]
+        hs += [build_history(env, gt, ctx.thorough, targets=["srw", "ssw"]) for _ in range(ctx.scale(40, 200))]
         check_histories(ctx, env, hs, "thread")
     finally:
         env.close()
@@ -1045,7 +1262,140 @@ def widen(ctx):
     run(ctx)
 
 
+class _FastTime:
+    """`time` inside audio_source for the free-running HTTP scenarios: polling sleeps are
+    shortened, the clock is the real one."""
+
+    def monotonic(self):
+        return time.monotonic()
+
+    def sleep(self, _s):
+        time.sleep(0.0003)
+
+
+class _PlainResponse:
+    def __init__(self, src, metaint=0):
+        self.status_code, self.reason = 200, "OK"
+        self.headers = {"icy-metaint": str(metaint)} if metaint else {}
+        self.raw = self
+        self._src = src
+
+    def read(self, n):
+        return self._src.take(n)
+
+    def __enter__(self):
+        return self
+
+    def __exit__(self, *a):
+        return False
+
+
+def run_http_factory(f):
+    """The real InternetSource.open with its real, free-running download thread (fake
+    `requests` response, real lock, shortened polling sleeps): probe, rewind, unprotect,
+    then the decoder pulls the stream to its end.  Returns (bytes received, error)."""
+    from pyatv.protocols.raop import audio_source as A
+    h = {"seed": f["seed"], "srclen": f["srclen"], "metaint": f.get("metaint", 0), "metas": f.get("metas"),
+         "cut": f.get("cut")}
+    wire, audio = _build_wire(h)
+    src = ScriptedSource(wire, f["ks"])
+    capture = bytearray()
+    saved = {k: getattr(A, k) for k in ("miniaudio", "get_metadata", "requests", "time")}
+
+    async def fake_get_metadata(file):
+        def probe():
+            for op in f["probe"]:
+                if op[0] == "read":
+                    file.read(op[1])
+                else:
+                    file.seek(op[1])
+        await asyncio.get_event_loop().run_in_executor(None, probe)
+        return A.EMPTY_METADATA
+
+    async def scenario():
+        loop = asyncio.get_event_loop()
+        inst = await A.InternetSource.open("http://verif.invalid/stream", 44100, 2, 2)
+        try:
+            for _ in range(2 * len(audio) // max(1, f["chunk"]) + 64):
+                data = await loop.run_in_executor(None, inst.source.read, f["chunk"])
+                if not data:
+                    break
+                capture.extend(data)
+        finally:
+            await inst.close()
+
+    loop = asyncio.new_event_loop()
+    error = None
+    A.miniaudio = _MiniaudioShim(saved["miniaudio"], bytearray(), threading.Lock())
+    A.get_metadata = fake_get_metadata
+    A.requests = FakeRequests(_PlainResponse(src, h["metaint"]))
+    A.time = _FastTime()
+    try:
+        loop.run_until_complete(asyncio.wait_for(scenario(), 60))
+    except Exception as e:
+        error = type(e).__name__ + ": " + str(e)[:120]
+    finally:
+        for k, v in saved.items():
+            setattr(A, k, v)
+        try:
+            loop.run_until_complete(loop.shutdown_default_executor())
+        except Exception:
+            pass
+        loop.close()
+    return bytes(capture), audio, error
+
+
+def gen_http_factory(rng):
+    srclen = rng.choice([0, 100, 9000, 30000, 70000, 150000])
+    probe, pos = [], 0
+    limit = min(srclen, 48000)          # what a probing read can wait for without timing out
+    for _ in range(rng.randint(0, 6)):
+        if rng.chance(0.65) and pos < limit:
+            n = rng.choice([1, 10, 4096, 8192, 32768, 40000, limit - pos])
+            n = max(1, min(n, limit - pos))
+            probe.append(["read", n])
+            pos += n
+        else:
+            pos = rng.choice([0, 0, 1, 4096, pos, max(0, pos - 1)])
+            probe.append(["seek", pos])
+    metaint = rng.choice([0, 0, 16000, 8192, 1000])
+    f = {"kind": "http", "seed": rng.randint(0, 255), "srclen": srclen, "probe": probe, "metaint": metaint,
+         "metas": [rng.choice([0, 0, 1, 3]) for _ in range(3)] if metaint else [],
+         "ks": [rng.choice([10 ** 6, 8191, 4095, rng.randint(0, 8000)]) for _ in range(rng.choice([0, 8, 64]))],
+         "chunk": rng.choice([1056, 4096, 8192, 32768])}
+    if metaint:
+        f["cut"] = len(_build_wire(dict(f, cut=None))[0])
+    return f
+
+
+def check_http_factories(ctx, fs):
+    for f in fs:
+        got, audio, error = run_http_factory(f)
+        case = dict(f, target="factory")
+        ctx.case(["factory-http", f], bool(f["probe"]), sample=None)
+        ctx.note("target:factory-http")
+        if error is not None:
+            ctx.fail("factory:exception", case, error, "the factory opens the stream and the decoder can read it",
+                     "InternetSource.open / reading raised " + error)
+        elif got != audio:
+            n = next((i for i, (a, b) in enumerate(zip(got, audio)) if a != b), min(len(got), len(audio)))
+            kind = "premature-eof" if n == len(got) else "read-mismatch"
+            ctx.fail("factory:" + kind, case, "decoder received %d bytes, first difference at offset %d" % (len(got), n),
+                     "exactly the %d audio bytes of the response, in order" % len(audio),
+                     "after the metadata probe %r the decoder did not receive the HTTP stream from its first byte" % (f["probe"],))
+
+
+def factory_fails(f):
+    if f.get("kind") == "http":
+        got, audio, error = run_http_factory(f)
+        return error is not None or got != audio
+    tokens, got, error = run_factory(f)
+    return error is not None or got != pat(f["seed"], 0, f["srclen"])
+
+
 def replay(ctx, failure):
+    if failure["case"].get("target") == "factory":
+        return factory_fails(failure["case"])
     c2 = type(ctx)(ctx.prop, ctx.tier, ctx.seed, ctx.driver.driver_rel)
     env = Env()
     try:
@@ -1060,6 +1410,17 @@ def shrink(ctx, failure):
     """Greedy: drop operations / oracle entries while the same kind of failure remains."""
     want = failure["sig"].split(":", 1)[1]
     h = dict(failure["case"])
+    if h.get("target") == "factory":
+        changed = True
+        while changed:      # drop probe operations while the decoder still misses bytes
+            changed = False
+            for i in range(len(h["probe"])):
+                c = dict(h, probe=h["probe"][:i] + h["probe"][i + 1:])
+                if factory_fails(c):
+                    h, changed = c, True
+                    break
+        return dict(failure, case=h, what="shrunk: " + failure["what"].split(" the decoder")[0].rsplit("probe", 1)[0]
+                    + "probe %r the decoder did not receive the source from its first byte" % (h["probe"],))
 
     def fails(c):
         env = Env()
